@@ -346,6 +346,8 @@ class C20:
                 "clock": env.choice(["frozen", "3s"]), "fresh": sorted(env.sample(range(len(faults)), min(2, len(faults))))}
 
     def _gen_doc(self, w, fmt):
+        if w.random() < 0.25:
+            return gen.RICH[fmt](w)        # more of the format's syntax: comments, CDATA, escapes, anchors, blobs
         if fmt == "json":
             return gen.to_json(w, gen.gen_container(w, 3))
         if fmt == "json5":
@@ -430,7 +432,9 @@ class C20:
             # (a large document is compared with itself: equal trees, no expensive diff)
             rc, exc, out, err = self._invoke(["graphtage", "--no-status", base_from,
                                               base_from if case.get("large") else ok_ext])
-            if exc is not None or rc not in (0, 1) or REJECTS[fmt](data):
+            if exc is not None or rc not in (0, 1) or not out.strip() or REJECTS[fmt](data) or \
+                    REJECTS[fmt](case["other"].encode("utf-8")):
+                # graphtage cannot load one of the two *valid* documents (e.g. a plist <date>): not C20's subject
                 return result(ood=True, digest="ood", counters={"ood.baseline_failed": 1})
             for fi, f in enumerate(case["faults"]):
                 bad = apply_fault(data, f)
